@@ -1584,11 +1584,18 @@ impl TypeChecker {
             return Err(self.error_no_method_on_type(&ty, field));
         };
 
+        // A function without parameters has no receiver, so it cannot be
+        // called as a method on a value.
+        let Some((receiver, params)) =
+            function.signature.parameter_types.split_first()
+        else {
+            return Err(self.error_no_method_on_type(&ty, field));
+        };
+
         // This might seem silly but we are unifying the receiver type with the
         // _instantiated_ type of the method.
-        self.unify(&function.signature.parameter_types[0], &ty, id, None)?;
+        self.unify(receiver, &ty, id, None)?;
 
-        let params = &function.signature.parameter_types[1..];
         let diverges =
             self.check_arguments(scope, ctx, "method", field, params, args)?;
         self.unify(
